@@ -1,12 +1,21 @@
 (* C10 — property theorems only. Statements are pinned by vp/check.py. *)
 Require Import Coq.Strings.String.   (* first: List's names must shadow String's *)
-From PV Require Import Lib.Base Crypto.Blake2b Crypto.Blake2bProofs C10.Model C10.Proofs.
+From PV Require Import Lib.Base Crypto.Hex Crypto.Blake2b Crypto.Blake2bProofs C10.Model C10.Proofs.
 Open Scope Z_scope.
 
 (* incremental hashing = RFC 7693 digest of the concatenation, for every chunking *)
 Theorem blake2b_stream_split : forall n chunks,
   blake2b_fin (fold_left absorb chunks (blake2b_init n)) = blake2b n (concat chunks).
 Proof. exact blake2b_stream_split_proof. Qed.
+
+(* the one-shot function is RFC 7693 section 3.3 read literally (blocks d[0..dd-1],
+   counter (i+1)*128, last block with the message length and the final flag) *)
+Theorem blake2b_rfc_eq : forall n msg, blake2b_rfc n msg = blake2b n msg.
+Proof. exact blake2b_rfc_eq_proof. Qed.
+
+Theorem blake2b_stream_split_rfc : forall n chunks,
+  blake2b_fin (fold_left absorb chunks (blake2b_init n)) = blake2b_rfc n (concat chunks).
+Proof. intros n chunks. rewrite blake2b_rfc_eq_proof. apply blake2b_stream_split_proof. Qed.
 
 Theorem hash_spec : forall n bs, hash n bs = blake2b n bs.
 Proof. exact hash_spec_proof. Qed.
@@ -71,6 +80,10 @@ Example blake2b512_empty :
   blake2b 64 [] =
   unhex "786a02f742015903c6c6fd852552d272912f4740e15847618a86e217f71f5419d25e1031afee585313896444934eb04b903a685b1448b755d56f701afe9be2ce".
 Proof. vm_compute. reflexivity. Qed.
+
+Example rfc_indexed_agrees_257 :
+  blake2b_rfc 32 (repeat 9 257) = blake2b 32 (repeat 9 257) /\ blake2b_rfc 64 [] = blake2b 64 [].
+Proof. vm_compute. split; reflexivity. Qed.
 
 (* the digests quoted in hasher.rs *)
 Example hasher_doc_256 :
